@@ -1283,12 +1283,25 @@ func buildReplacement(fset *token.FileSet, src func(string) []byte, fd *ast.Func
 			return "", "method called without a selector"
 		}
 		selection := pk.TypesInfo.Selections[sel]
-		if selection == nil || len(selection.Index()) != 1 {
-			return "", "method reached through embedding"
+		if selection == nil || len(selection.Index()) < 1 {
+			return "", "method selection not resolved"
 		}
 		rt := sig.Recv().Type()
 		xt := pk.TypesInfo.TypeOf(sel.X)
 		x := nodeText(fset, src, sel.X)
+		// a method promoted from embedded fields: name the fields on the way (`cli.m()` is `cli.Cmd.m()`)
+		for _, fi := range selection.Index()[:len(selection.Index())-1] {
+			base := xt
+			if pt, isP := base.Underlying().(*types.Pointer); isP {
+				base = pt.Elem()
+			}
+			st, isS := base.Underlying().(*types.Struct)
+			if !isS || fi >= st.NumFields() || !st.Field(fi).Embedded() {
+				return "", "method reached through embedding that cannot be spelled out"
+			}
+			x = "(" + x + ")." + st.Field(fi).Name()
+			xt = st.Field(fi).Type()
+		}
 		_, rPtr := rt.(*types.Pointer)
 		_, xPtr := xt.Underlying().(*types.Pointer)
 		switch {
@@ -2309,6 +2322,122 @@ func DispatchMethodValues(p *load.Program, overlay map[string][]byte) (map[strin
 				nb = append(nb[:r.from], append([]byte(r.text), nb[r.to:]...)...)
 			}
 			out[file] = pruneUnusedImports(file, nb)
+		}
+	}
+	return out, notes
+}
+
+// SplitParallelDefine rewrites `a, b := e1, e2` (every left-hand name newly defined by the statement, the
+// statement standing in a statement list, no right-hand side mentioning one of the names) into
+// `a := e1; b := e2` when one of the right-hand sides calls a function outside the pinned vocabulary.
+// The operands are evaluated in the same order, the new variables are not visible to the right-hand
+// sides in either form, so behaviour is unchanged; each call then stands alone in its statement, which is
+// the position the inliner supports.
+func SplitParallelDefine(p *load.Program, name func(*ssa.Function) string, overlay map[string][]byte) (map[string][]byte, []string) {
+	out := map[string][]byte{}
+	var notes []string
+	src := func(file string) []byte {
+		if b, ok := overlay[file]; ok {
+			return b
+		}
+		b, _ := readFile(file)
+		return b
+	}
+	for _, pk := range p.Closure {
+		for _, f := range pk.Syntax {
+			file := p.Fset.Position(f.Pos()).Filename
+			if strings.HasSuffix(file, "_test.go") {
+				continue
+			}
+			type repl struct {
+				from, to int
+				text     string
+			}
+			var repls []repl
+			b := src(file)
+			text := func(n ast.Node) string {
+				return string(b[p.Fset.Position(n.Pos()).Offset:p.Fset.Position(n.End()).Offset])
+			}
+			try := func(list []ast.Stmt) {
+				for _, st := range list {
+					as, ok := st.(*ast.AssignStmt)
+					if !ok || as.Tok != token.DEFINE || len(as.Lhs) < 2 || len(as.Lhs) != len(as.Rhs) {
+						continue
+					}
+					names := map[string]bool{}
+					allNew := true
+					for _, l := range as.Lhs {
+						id, isID := l.(*ast.Ident)
+						if !isID || id.Name == "_" || pk.TypesInfo.Defs[id] == nil {
+							allNew = false
+							break
+						}
+						names[id.Name] = true
+					}
+					if !allNew {
+						continue
+					}
+					helper, mentions := false, false
+					for _, r := range as.Rhs {
+						ast.Inspect(r, func(m ast.Node) bool {
+							switch x := m.(type) {
+							case *ast.Ident:
+								if names[x.Name] {
+									mentions = true
+								}
+							case *ast.CallExpr:
+								var id *ast.Ident
+								switch fx := x.Fun.(type) {
+								case *ast.Ident:
+									id = fx
+								case *ast.SelectorExpr:
+									id = fx.Sel
+								}
+								if id != nil {
+									if obj, _ := pk.TypesInfo.Uses[id].(*types.Func); obj != nil && obj.Pkg() != nil && p.InModule(obj.Pkg()) {
+										if sf := p.SSA.FuncValue(obj); sf != nil && !Known(name(sf)) {
+											helper = true
+										}
+									}
+								}
+							}
+							return true
+						})
+					}
+					if !helper || mentions {
+						continue
+					}
+					var parts []string
+					for i := range as.Lhs {
+						parts = append(parts, text(as.Lhs[i])+" := "+text(as.Rhs[i]))
+					}
+					repls = append(repls, repl{p.Fset.Position(as.Pos()).Offset, p.Fset.Position(as.End()).Offset, strings.Join(parts, "\n")})
+					notes = append(notes, fmt.Sprintf("split `%s` into one definition per name at %s (analysis only)", text(as), p.Fset.Position(as.Pos())))
+				}
+			}
+			ast.Inspect(f, func(n ast.Node) bool {
+				switch x := n.(type) {
+				case *ast.BlockStmt:
+					try(x.List)
+				case *ast.CaseClause:
+					try(x.Body)
+				case *ast.CommClause:
+					try(x.Body)
+				}
+				return true
+			})
+			if len(repls) == 0 {
+				continue
+			}
+			nb := append([]byte(nil), b...)
+			sort.Slice(repls, func(i, j int) bool { return repls[i].from > repls[j].from })
+			for _, r := range repls {
+				if r.from < 0 || r.to > len(nb) || r.from > r.to {
+					continue
+				}
+				nb = append(nb[:r.from], append([]byte(r.text), nb[r.to:]...)...)
+			}
+			out[file] = nb
 		}
 	}
 	return out, notes
